@@ -40,7 +40,7 @@ class Ctx:
     def prove(self, files, aux=()):
         for f in files:
             self.obligations += ["%s:%s" % (f, t) for t in theorems_in(f)]
-        targets = [f[:-2] + ".vo" for f in files]
+        targets = [f[:-2] + ".vo" for f in files] + ["Concrete/CVal.vo", "Concrete/Run.vo"]  # the stream / e2e checkers
         r = coq_make(targets, force=list(files) + list(aux))
         ass = parse_assumptions(r["log"])
         self.closed += ass["closed"]
